@@ -193,6 +193,14 @@ def run(tier, seed):
                             "rejected (model drift, not a verdict)": [{"script": corp[i]["text"][:200], "line": ln} for i, ln, _ in rejs[:5]]}
     ncorp = corpus_check(V, thorough, rnd)
     cov["corpus_scripts_compared_with_their_statements_parsed_alone"] = ncorp
+    # ---- the end-to-end composition (spec/System.tla): every script of <= 3 statements over 15 kinds, parse stage -> fold stage -> result
+    from .. import sys_check as SY
+    sc, ss, st, sn = SY.leg(V, tier, seed, "C03: <=3 statements of 15 kinds, silent, flat", SY.ALL_KINDS, MaxStmts=3, cap=20000 if thorough else 5000,
+                            negative=("set_swallows_next", "OutcomeOK", {"MaxStmts": 2}),
+                            sim={"consts": {"MaxStmts": 5}, "simulate": "num=3000", "depth": 40} if thorough else None)
+    cov["system_composition"] = sc
+    states += ss
+    trans += st
     rc = V.finish()
     cov.update({"states": states, "transitions": trans, "traces_validated_against_impl": total + ncorp,
                 "model_drift": {"behaviours_where_the_grammar_received_other_statements_than_the_model_submitted": drift},
